@@ -5,7 +5,7 @@ class Target:
     """A function (or region) of /repo that is extracted and lowered on every run."""
 
     def __init__(self, name, file, locate, rules=(), loops=None, ghost=(), index=0, count=1,
-                 common=True, region_end=None, note='', marks=None, defers=None):
+                 common=True, region_end=None, note='', marks=None, defers=None, pre_rules=()):
         self.name = name
         self.file = file
         self.locate = locate
@@ -15,6 +15,7 @@ class Target:
         self.index = index
         self.count = count
         self.common = common
+        self.pre_rules = list(pre_rules)   # rules applied before the DEFER lowering
         self.defers = defers          # dict(rettype=..., scoped_lock=(lock_fmt, unlock_fmt)) -> engine.extract.lower_defers
         self.marks = marks or {}      # textual loop-rule instrumentation (engine.extract.mark_loops)
         self.region_end = region_end  # if set: extract_region(locate, region_end)
